@@ -364,3 +364,74 @@ func VH_C16_invalid() {
 	vhRecOn = false
 	zz.Reach("end")
 }
+
+// VH_C16_label_positions: grouped series of one metric whose label sets have
+// different shapes (only `source`, only `target`, both) and whose values may
+// coincide across labels: a series is identified by which label carries which
+// value, so {source="a"} and {target="a"} are two series.
+func VH_C16_label_positions() {
+	m := NewMetricStorage(context.Background(), "p_", true, log.NewNop())
+	vhRec, vhRecOn = nil, false
+	common := map[string]string{"hook": "hookA"}
+	counter := zz.Bool("counter")
+	n := zz.Len("nops", 2, zz.Param("maxops", 3))
+	type key struct{ s, t string }
+	var keys []key
+	var vals []float64
+	var batch []operation.MetricOperation
+	for i := 0; i < n; i++ {
+		si := strconv.Itoa(i)
+		shape := zz.Len("shape"+si, 0, 2)
+		k := key{}
+		labels := map[string]string{}
+		if shape != 1 {
+			k.s = zz.ConcretizeStr(zz.OneOf("source"+si, "a", "b"))
+			labels["source"] = k.s
+		}
+		if shape != 0 {
+			k.t = zz.ConcretizeStr(zz.OneOf("target"+si, "a", "b"))
+			labels["target"] = k.t
+		}
+		v := float64(i + 1)
+		op := operation.MetricOperation{Name: "m1", Group: "g1", Action: "set", Value: &v, Labels: labels}
+		if counter {
+			op.Action = "add"
+		}
+		batch = append(batch, op)
+		found := false
+		for j := range keys {
+			if keys[j] == k {
+				found = true
+				if counter {
+					vals[j] += v
+				} else {
+					vals[j] = v
+				}
+			}
+		}
+		if !found {
+			keys = append(keys, k)
+			vals = append(vals, v)
+		}
+	}
+	zz.Assert(m.SendBatch(batch, common) == nil, "valid_batch_is_applied")
+	got := vhDumpAll(m)
+	zz.Assert(len(got) == len(keys), "exactly_the_batch_series_remain")
+	for j, k := range keys {
+		cnt := 0
+		for _, g := range got {
+			lv := map[string]string{}
+			for i, nme := range g.LabelNames {
+				if i < len(g.LabelValues) {
+					lv[nme] = g.LabelValues[i]
+				}
+			}
+			if lv["source"] == k.s && lv["target"] == k.t && lv["hook"] == "hookA" {
+				cnt++
+				zz.Assert(g.Value == vals[j], "series_has_the_given_value")
+			}
+		}
+		zz.Assert(cnt == 1, "each_series_present_once")
+	}
+	zz.Reach("end")
+}
